@@ -117,6 +117,12 @@ CLAIMED["C15"] = dict(
     text="The message-level fault kinds (replay, stale nonce, foreign signing key, clear text altered after signing, corrupted signed message, second request while one is open) are all delivered in every round of every run, around genuine exchanges carrying 1-2 child requests; state digests before/after every refused message. Signer re-initialisation is not covered (no such operation exists for the embedded signer).",
     design_ref="DESIGN.md §5 C15",
 )
+CLAIMED["C19"] = dict(
+    category="exploration",
+    technique="deterministic simulation: seeded histories with failing exchanges (child removed, publisher removed, parent removed, CA deleted) and restarts; outcome of each synchronisation attempt derived from the captured log output and compared with status/issues views after every task",
+    text="Seeded search over histories of successful and refused exchanges on the real code; the oracle for 'the most recent attempt failed' is the scheduler's own log line, an independent path from the status store; restart invariance is checked against a runtime loaded afresh from the same storage.",
+    design_ref="DESIGN.md §5 C19",
+)
 PENDING = {}
 
 def main():
